@@ -72,7 +72,9 @@ AngleWithin(a, b, deg) ==
 AngleWithinAny(a, b, deg) == IF deg > 180 THEN (IF N2(a) * N2(b) = 0 THEN "free" ELSE "T") ELSE AngleWithin(a, b, deg)
 
 \* ---- criterion "facing": angle between the face normal and direction d within deg
-FacingVerdict(vpos, faces, f, c) == AngleWithinAny(FaceNormal(vpos, faces, f), c.d, c.deg)
+\* (a zero-area face has no normal: it satisfies no facing criterion - in particular never both d and -d)
+FacingVerdict(vpos, faces, f, c) == IF N2(FaceNormal(vpos, faces, f)) = 0 /\ N2(c.d) # 0 /\ c.deg <= 180 THEN "F"
+                                    ELSE AngleWithinAny(FaceNormal(vpos, faces, f), c.d, c.deg)
 
 \* ---- criterion "near": reference = axis-aligned rectangle, normal axis ax (1..3), offset h, in-plane range
 \* lo..hi along the two cyclically following axes, normal +axis if up.  (u, v, w) = in-plane, in-plane, normal.
